@@ -100,9 +100,12 @@ CFG = {
         "text next to text (round-5 seed 1): elements whose children are text nodes and Vecs / tuples / islands that END in text, each "
         "followed by a text sibling, generated next to pending Suspends and inside content that resolves later; the driver places the "
         "`<!>` separators by tachys' Position rules (Driver/C07 markTexts) and the document oracle compares byte for byte, markers "
-        "included. Bare text is not generated directly after (or first inside) a Suspend / boundary / resource read: there the "
-        "position is a guess that depends on readiness (C05's known class suspend-position, F-C05-6: pending in-order "
-        "(\"a\", Suspend(\"done\"), \"z\") streams `a<!>donez`; ready at render time every mode gives `a<!>done<!>z` — confirmed at HEAD, nothing new)",
+        "included. After a Suspend the position is a guess that depends on readiness: the static case — in-order, a Suspend outside every "
+        "asynchronous node, pending at render time, content ending in text, text sibling next — is generated (a tenth of the in-order "
+        "view cases) and reproduced by the driver (markTexts frames `s`/`r`): known class suspend-position (F-C07-11 = F-C05-6 under "
+        "C07's oracle: `a<!>donez` vs `a<!>done<!>z`). Bare text directly after / first inside a boundary, a resource read or a "
+        "Suspend nested in asynchronous content (readiness decided at a later poll) and the out-of-order twin (position left "
+        "unchanged) are not generated",
         "text atoms, <textarea> text and `title` attribute values include strings that need escaping (`<`, `&`, `>`, a double quote, "
         "`</textarea>`, a leading line feed, the stream's own marker / template / script syntax), also after a still-pending "
         "sibling and inside content that resolves later (round-4 seed 3); the driver prints them with Model/Html (C06's printer: "
